@@ -32,6 +32,10 @@ void harness(void) {
 		ctx.sigma[i] = es[i] = nondet_uint64_t();
 	}
 	ctx.use_sse = ctx.use_avx = 0;
+	/* the oracle's result table: arbitrary (file-scope objects are zero in a plain harness) */
+	for (unsigned k = 0; k < VF_LPS_MAX; k++)
+		for (unsigned i = 0; i < 8; i++)
+			vf_lps_out[k][i] = nondet_uint64_t();
 	vf_lps_n = 0;
 	vf_lps_j = 0;
 	/* the library first (records the LPS arguments) ... */
